@@ -1,4 +1,5 @@
 import PyYetiVerif.Lemmas.UsetXyz
+import PyYetiVerif.Model.RigidBodyMult
 /-!
 `n2p.find_xyz_triples` (C18's model `Model/UsetXyz.lean`, read-only) on the matrices `cb.rbmultchk` hands to it:
 exact x, y, z triples in ANY order, mixed with any number of rows that are not part of a triple because their
@@ -262,5 +263,58 @@ theorem replicate_segsLen_pv (l : List Seg) :
   | cons s t ih =>
     rw [List.flatMap_cons, List.map_append, ih, List.flatMap_cons]
     cases s <;> rfl
+
+/-! ### the scale of rigid-body modes with six rows per grid (`rbScale2`) -/
+
+section scale
+open PyYetiVerif.RigidBody
+
+/-- the first column of the rigid-body modes of one grid: translation rows `a b c`, rotation rows `0 0 0` -/
+def gridCol0 (abc : ℚ × ℚ × ℚ) : List ℚ := [abc.1, abc.2.1, abc.2.2, 0, 0, 0]
+
+theorem foldl_maxR_le (σ : ℚ) : ∀ (l : List ℚ) (init : ℚ), init ≤ σ → (∀ x ∈ l, x ≤ σ) → l.foldl maxR init ≤ σ
+  | [], init, h, _ => h
+  | x :: t, init, h, hl => by
+      simp only [List.foldl_cons]
+      apply foldl_maxR_le σ t
+      · unfold maxR; split
+        · exact hl x List.mem_cons_self
+        · exact h
+      · exact fun y hy => hl y (List.mem_cons_of_mem _ hy)
+
+theorem le_foldl_maxR : ∀ (l : List ℚ) (init : ℚ), init ≤ l.foldl maxR init
+  | [], init => le_refl _
+  | x :: t, init => le_trans (le_maxR_left init x) (le_foldl_maxR t (maxR init x))
+
+theorem mem_le_foldl_maxR : ∀ (l : List ℚ) (init x : ℚ), x ∈ l → x ≤ l.foldl maxR init
+  | y :: t, init, x, h => by
+      simp only [List.foldl_cons]
+      rcases List.mem_cons.1 h with rfl | h
+      · exact le_trans (le_maxR_right init x) (le_foldl_maxR t _)
+      · exact mem_le_foldl_maxR t _ x h
+
+/-- all window sums of a column made of grid blocks (after two leading zeros) stay below the block norm -/
+theorem colSq3_blocks_le (σ : ℚ) (hσ : 0 ≤ σ) : ∀ (blocks : List (ℚ × ℚ × ℚ)),
+    (∀ b ∈ blocks, b.1 * b.1 + b.2.1 * b.2.1 + b.2.2 * b.2.2 = σ) →
+    ∀ x ∈ colSq3 (0 :: 0 :: blocks.flatMap gridCol0), x ≤ σ
+  | [], _, x, hx => by simp [colSq3] at hx
+  | b :: t, hb, x, hx => by
+      have hbσ := hb b List.mem_cons_self
+      have ih := colSq3_blocks_le σ hσ t (fun c hc => hb c (List.mem_cons_of_mem _ hc))
+      simp only [List.flatMap_cons, gridCol0, List.cons_append, List.nil_append, colSq3, List.mem_cons] at hx
+      have h1 := mul_self_nonneg b.1
+      have h2 := mul_self_nonneg b.2.1
+      have h3 := mul_self_nonneg b.2.2
+      rcases hx with rfl | rfl | rfl | rfl | rfl | rfl | hx
+      · nlinarith
+      · nlinarith
+      · nlinarith
+      · nlinarith
+      · nlinarith
+      · nlinarith
+      · exact ih x hx
+
+
+end scale
 
 end PyYetiVerif.Xyz
